@@ -139,10 +139,6 @@ pub fn check_pair(c: &PairCase) -> CheckResult {
                     pending = false;
                 }
                 Op::Fill(n) => {
-                    if *n == 0 && pending {
-                        // the statement is silent on whether a zero-length fill keeps the half
-                        position_known = false;
-                    }
                     consumed += (*n + wb - 1) / wb;
                     pending = false;
                 }
